@@ -167,7 +167,7 @@ def _r1_reject_helper(run, R1, w):
 
 
 def _r1_one(run, R1, w, fi):
-  fn = w.fn_of(fi)
+  fn = H.inlined_fn(w, fi.qualname)
   cfg = fn.cfg
   du = DefUse(fn)
   rd = H.ReachDefs(fn, du)
@@ -180,6 +180,10 @@ def _r1_one(run, R1, w, fi):
   p_rows, p_vals, p_sum = ps[1], ps[2], "action_summary"
   trans = [(n, c) for (n, c, nm) in fn.calls() if nm == p_sum + ".translate_new_row_ids"]
   if not trans:
+    if H.hidden_in_callees(w, fn, lambda c, nm, f: isinstance(c.func, ast.Attribute) and
+                           c.func.attr == "translate_new_row_ids", depth=3):
+      raise AnalysisError("%s: translate_new_row_ids is only called inside a helper that could "
+                          "not be read in place" % fi.qualname)
     run.ob(R1, fi.qualname, "%s.translate_new_row_ids(...)" % p_sum, "temporary ids in the new "
            "values are translated", False, fi=fi)
     return
@@ -235,17 +239,21 @@ def _r1_one(run, R1, w, fi):
       is_tc = lambda y: y is tc or text(y) == text(tc)
       src_ok = is_tc(e) or (isinstance(e, ast.IfExp) and (
         (is_tc(e.body) and text(e.orelse) == a1.id) or (is_tc(e.orelse) and text(e.body) == a1.id)))
+  if resv is None:
+    raise AnalysisError("%s: cannot tell which local the translated values end up in (%s)"
+                        % (fi.qualname, short(tst, 70)))
   run.ob(R1, fi.qualname, "translate(%s)" % (text(a1) if a1 is not None else "?"),
          "what is translated is the incoming values (each of them), and an untranslated value is "
-         "passed through unchanged", src_ok and resv is not None, fi=fi, node=tc)
-  if resv is None:
-    return
+         "passed through unchanged", src_ok, fi=fi, node=tc)
   # the delegation to the base class
   base = w.repo.func("column.BaseReferenceColumn.prepare_new_values")
   dele = [(n, c) for (n, c, nm) in fn.calls() if isinstance(c.func, ast.Attribute) and
           c.func.attr == "prepare_new_values" and isinstance(c.func.value, ast.Call) and
           dotted(c.func.value.func) == "super"]
   if not dele:
+    if H.hidden_in_callees(w, fn, lambda c, nm, f: isinstance(c.func, ast.Attribute) and
+                           c.func.attr == "prepare_new_values", depth=2):
+      raise AnalysisError("%s: the delegation to the base class is inside a helper" % fi.qualname)
     run.ob(R1, fi.qualname, "return super().prepare_new_values(...)", "the translated values are "
            "delegated to the base class", False, fi=fi)
     return
@@ -440,6 +448,10 @@ def r3_row_ids(run, w):
   req = lambda x, d: isinstance(x, str) and x == ps[2] and d == ENTRY
   forig = H.origin_defs(rd, filled, un.id)          # looking through plain copies of the list
   fvals = [(H.def_value(cfg, d) if d != ENTRY else None, d) for d in forig]
+  for (v, d) in fvals:
+    if isinstance(v, ast.Call) and H.local_callee(w, fn, v) is not None:
+      raise AnalysisError("doBulkAddOrReplace: the filled row ids are produced by helper %s, "
+                          "which could not be read in place" % short(v, 60))
   copy_ok = bool(fvals) and all(v is not None and not isinstance(v, ast.Name) and
                                 H.whole_of(fn, rd, v, d, req) is True
                                 for (v, d) in fvals)
